@@ -18,7 +18,8 @@ RULE = (
     "of the bases are 'stars' on which optimal and optimal-outer return "
     "different paths -, and per "
     "call an optimize value from {nine deterministic preset names incl. aliases, an explicit tuple path, the "
-    "same path as a list, another explicit path} and kwargs from "
+    "same path as a list, another explicit path, a ContractionTree (plain / sliced), one caching optimizer "
+    "OBJECT (ReusableHyperOptimizer / ReusableRandomGreedyOptimizer) shared by all calls of the history} and kwargs from "
     "{strip_exponent, implementation, prefer_einsum, sort_contraction_indices, "
     "via=(convert_in, convert_out) with converters that mark the value} "
     "incl. values equal under ==/hash but of different type (1/True/1.0). "
@@ -105,7 +106,7 @@ def histories(draw):
     )
     opts = draw(
         st.lists(
-            st.sampled_from(PRESETS + ["optimal", "optimal-outer", "p1_tuple", "p1_list", "p1_nested", "p1_tuple_of_lists", "p2_tuple", "p2_list", "p2_nested", "p2_tuple_of_lists", "e_tuple", "e_list", "tree_plain", "tree_sliced"]),
+            st.sampled_from(PRESETS + ["optimal", "optimal-outer", "p1_tuple", "p1_list", "p1_nested", "p1_tuple_of_lists", "p2_tuple", "p2_list", "p2_nested", "p2_tuple_of_lists", "e_tuple", "e_list", "tree_plain", "tree_sliced", "reusable_hyper", "reusable_rg"]),
             min_size=1, max_size=3,
         )
     )
@@ -241,6 +242,7 @@ def run_case(spec, sub=None):
     variants_seen = set()
     cls = []
     handed_out = {}  # id(object) -> (canonical contraction, object)
+    shared_opts = {}  # one caching optimizer object per history and kind
 
     def canonical(inputs, output, sizes):
         m = {}
@@ -308,6 +310,20 @@ def run_case(spec, sub=None):
                 cand_ = [ix for ix in sorted(sizes) if ix in {j for t in inputs for j in t}]
                 if cand_:
                     optimize.remove_ind_(cand_[call["vk"] % len(cand_)])
+        elif o.startswith("reusable_"):
+            # a caching optimizer *object* shared by every call of the history
+            # (what 'auto'/'auto-hq' turn into for larger contractions): its
+            # own path cache sits below the interface caches
+            if o not in shared_opts:
+                if o == "reusable_hyper":
+                    shared_opts[o] = ctg.ReusableHyperOptimizer(
+                        methods=["greedy"], max_repeats=2, optlib="random", parallel=False, progbar=False,
+                    )
+                else:
+                    shared_opts[o] = ctg.pathfinders.path_basic.ReusableRandomGreedyOptimizer(
+                        max_repeats=2, seed=0, parallel=False,
+                    )
+            optimize = shared_opts[o]
         elif o.startswith("p"):
             explicit = paths[o[:2]]
             if o.endswith("tuple_of_lists"):
@@ -563,6 +579,8 @@ def run_case(spec, sub=None):
         if viol:
             break
         cls.append(f"fn={fn}")
+        if o.startswith("reusable_"):
+            cls.append("shared_reusable_optimizer_object")
     if hits:
         cls.append("cache_hit")
     nontrivial = hits >= 1 and len(variants_seen) >= 2
